@@ -120,3 +120,43 @@ package fluentdforward
 //@        && (len(as(lastenc, forwardprotocol.TransportOption).Compressed) > 0 <==> params.IsCompressed)
 //@   canary ensures result.1 == nil ==> as(lastenc, forwardprotocol.TransportOption).Size == params.NumRecords + 1
 //@   ensures[forward-mode-array-length] result.1 == nil && enc.asArray ==> lastarrlen == params.NumRecords
+
+// ==== configuration: verify => construct (C16) ===================================================================================
+// serok(c, s): every environment field and every rewritten field is a schema field, and every rewriter chain is verified
+//@ pure func serok(c SerializationConfig, s base.LogSchema) bool :=
+//@     len(c.EnvironmentFields) > 0 && (forall i int :: 0 <= i && i < len(c.EnvironmentFields) ==> base.hasf(s, key(c.EnvironmentFields[i])))
+//@  && (forall k int :: rawhas(c.RewriteFields, k) ==> base.hasf(s, k) && bsupport.rwcsok(rawget(c.RewriteFields, k), s))
+//@ pure func rwvaluesok(c SerializationConfig) bool :=
+//@     forall k int :: rawhas(c.RewriteFields, k) ==> forall i int :: 0 <= i && i < len(rawget(c.RewriteFields, k)) ==> rawget(c.RewriteFields, k)[i].Value != nil
+
+//@ func (cfg *Config) VerifyConfig(schema base.LogSchema) error
+//@   property C16
+//@   requires cfg != nil && rwvaluesok(cfg.Serialization)
+//@   modifies nothing
+//@   ensures[accepted-config-is-constructible] result == nil ==> serok(cfg.Serialization, schema)
+//@   loop 1: invariant -1 <= rangeindex && rangeindex < len(cfg.Serialization.EnvironmentFields) && forall i int :: 0 <= i && i <= rangeindex ==> base.hasf(schema, key(cfg.Serialization.EnvironmentFields[i]))
+//@   loop 2: foreach k int :: base.hasf(schema, k) && bsupport.rwcsok(rawget(cfg.Serialization.RewriteFields, k), schema)
+
+//@ func NewEventSerializer(parentLogger logger.Logger, schema base.LogSchema, config SerializationConfig) (base.LogSerializer, error)
+//@   property C16
+//@   requires[verified-before-constructed] serok(config, schema)
+//@   requires rwvaluesok(config) && (forall i int :: 0 <= i && i < len(schema.fieldNames) ==> len(schema.fieldNames[i]) < 4294967296)
+//@   requires forall i int :: 0 <= i && i < len(config.EnvironmentFields) ==> len(config.EnvironmentFields[i]) < 4294967296
+//@   modifies nothing
+//@   ensures[verified-config-constructs] result.1 == nil
+//@   loop 1: invariant -1 <= rangeindex && rangeindex < len(config.EnvironmentFields) && len(envFieldLocators) == len(config.EnvironmentFields) && isfresh(envFieldLocators)
+//@   loop 2: invariant -1 <= rangeindex#2 && rangeindex#2 < len(fieldNames) && len(fieldRewriters) == len(fieldNames) && isfresh(fieldRewriters)
+//@   loop 3: invariant -1 <= rangeindex#3 && rangeindex#3 < len(fieldNames) && len(fieldMasks) == len(fieldNames) && isfresh(fieldMasks)
+
+//@ func serializeStrings(strValues []string) []msgpackBlock
+//@   property C16
+//@   requires forall i int :: 0 <= i && i < len(strValues) ==> len(strValues[i]) < 4294967296
+//@   modifies nothing
+//@   ensures  len(result) == len(strValues)
+//@   loop 1: invariant -1 <= rangeindex && rangeindex < len(strValues) && len(results) == len(strValues) && isfresh(results)
+
+//@ func MustNewEventSerializer(parentLogger logger.Logger, schema base.LogSchema, config SerializationConfig) base.LogSerializer
+//@   property C16
+//@   requires[verified-before-constructed] serok(config, schema) && rwvaluesok(config)
+//@   requires (forall i int :: 0 <= i && i < len(schema.fieldNames) ==> len(schema.fieldNames[i]) < 4294967296) && (forall i int :: 0 <= i && i < len(config.EnvironmentFields) ==> len(config.EnvironmentFields[i]) < 4294967296)
+//@   modifies nothing
